@@ -2,7 +2,7 @@
 From Coq Require Extraction.
 From Coq Require Import ExtrOcamlBasic.
 From SQ Require Import lib.Base.
-From SQ Require model.Varint model.Frame model.PacketHeader.
+From SQ Require model.Varint model.Frame model.PacketHeader model.TpGrammar.
 Extraction Language OCaml.
 
 Definition varint_run := Varint.run.
@@ -13,4 +13,8 @@ Definition packets_run := PacketHeader.run.
 Definition packets_judge := PacketHeader.judge.
 Definition pn_run := PacketHeader.run_pn.
 Definition pn_judge := PacketHeader.judge_pn.
-Extraction "../ocaml/gen/C05/model.ml" varint_run varint_judge frames_run frames_judge packets_run packets_judge pn_run pn_judge.
+Definition tparams_run := TpGrammar.run.
+Definition tparams_judge := TpGrammar.judge.
+Definition tparams_total_run := TpGrammar.run_total.
+Definition tparams_total_judge := TpGrammar.judge_total.
+Extraction "../ocaml/gen/C05/model.ml" varint_run varint_judge frames_run frames_judge packets_run packets_judge pn_run pn_judge tparams_run tparams_judge tparams_total_run tparams_total_judge.
